@@ -27,6 +27,9 @@ FAILING = [
     ('READ q1%, q2%, q3%', 'DEVICE_ERROR'), ('READ a1$, a2$, a3$, a4$, a5$', 'DEVICE_ERROR'), ('PRINT USING "#"; "a"', 'DEVICE_ERROR'),
     ('PRINT USING "abc_"; 1', 'DEVICE_ERROR'), ('PRINT USING "## ##"; 1', 'DEVICE_ERROR'), ('PRINT CINT(40000.5)', 'INVALID_CELL_VALUE'),
     ('PRINT CLNG(3E10)', 'INVALID_CELL_VALUE'), ('DIM dyn%(1 TO z%)', 'INDEX_OUT_OF_RANGE'),
+    # just beyond the largest SINGLE (between FLT_MAX + half an ulp and 2^128): still a numeric overflow
+    ('big# = 3.4028236D+38: w! = big#', 'INVALID_CELL_VALUE'), ('w! = 3.4028234E+38: w! = w! + 2E+31', 'INVALID_CELL_VALUE'),
+    ('big# = 3.40282357D+38: PRINT CSNG(big#)' if False else 'big# = 3.40282357D+38: w! = big# * 1', 'INVALID_CELL_VALUE'),
 ]
 # statements that exercise the instructions outside the models (strings, devices, float power ...)
 EXOTIC = ['PRINT 2 ^ 0.5', 'PRINT 10# ^ 400', 'PRINT (-8) ^ 0.5', 'PRINT 0 ^ -1', 'PRINT VAL("99999999999")', 'PRINT VAL("1e999")',
@@ -163,8 +166,10 @@ def run(chk):
     ninstr = 0
     kinds = {}
     special = {'i': [0, 1, -1, 2, -2, 255, 256, 32767, -32768], 'l': [0, 1, -1, 2147483647, -2147483648, 65536],
-               's': [0.0, -0.0, 1.0, -1.0, 0.5, -0.5, 3.4028234663852886e38, float('inf'), float('nan'), 1e-45],
-               'd': [0.0, -0.0, 1.0, -1.0, 0.5, -0.5, 1.7976931348623157e308, float('inf'), float('nan'), 5e-324, 400.0],
+               's': [0.0, -0.0, 1.0, -1.0, 0.5, -0.5, 3.4028234663852886e38, float('inf'), float('nan'), 1e-45, 2.028240960365167e31,
+                     -3.4028234663852886e38],
+               'd': [0.0, -0.0, 1.0, -1.0, 0.5, -0.5, 1.7976931348623157e308, float('inf'), float('nan'), 5e-324, 400.0, 3.4028236e38,
+                     3.40282357e38, -3.4028236e38, 3.4028235677973366e38],
                't': ['', 'a', 'abc', ' 12 ', '1e999', '99999999999', '&HFFFF', chr(255)]}
     for name, sigs in sorted(vmops.SIGS.items()):
         for sig in sigs:
